@@ -24,6 +24,12 @@ are gone because the repository was repaired (read-only `Open` with several jour
 `Snapshot.String` on a released snapshot, `Transaction.Write` of an empty batch on a finished transaction, table
 compaction after `SetReadOnly` — D14, see `setReadOnly_quiesces_refuted_without_parking`): the
 tables and theorems state the repaired behaviour, the old one is kept as a remark where it was recorded.
+
+Calls racing `Close` (the last clause of the property; six defects found by wp40, D41–D46): the four that are a
+wrong result of a single call are tied to the source by `code_close_race_repairs` below; the two that are about who
+holds the write lock while `Close` runs are theorems of C09 (`readonly_no_write_after_close`,
+`tx_close_no_live_transaction`, `tx_close_returns`, with their ties `code_keeps_lock`, `code_tx_registration`); the
+check `c18race.go` exercises all six on the real code.
 -/
 namespace GoLevel.C18
 open GoLevel.Life
@@ -482,6 +488,80 @@ the first statement; `Put`/`Delete` go through `putRec`, `Close` flips the flag 
 without the check turns the fact false. -/
 theorem code_methods_guarded : Gen.lifeDBMethodsGuarded = true := by decide
 
+/-! ## calls racing `Close` (wp40 / wp51)
+
+"… concurrent calls racing with Close either complete normally or return the closed error."  A call that passed
+`db.ok()` before `Close` set the flag goes on while `Close` tears the DB down; what it meets there is listed below,
+one line per thing `Close` takes away, with what the call then returns as a function of one source fact each
+(`RaceCfg`; `true` = the repaired source).  The harness check C18 (`c18race.go`) drives exactly these races on the real
+code at yield points and accepts only `normal` (with a correct answer) and `closed`. -/
+
+/-- what a call that overlaps `Close` can come back with -/
+inductive RaceOutcome | normal | closed | internalError | madeUpAnswer | panic
+deriving DecidableEq, Repr
+
+/-- what `Close` has already taken away when the call gets there -/
+inductive RaceWindow
+  /-- `Cache.Close` has stored nil into the bucket table (`DB.Stats` → `Cache.GetStats`) -/
+  | cacheClosed
+  /-- `fileCache.Close(true)` has released the table reader under the handle the call holds (`Get`, `Has`, `SizeOf`,
+  iterators: `tOps.find` / `findKey` / `offsetOf`, `dbIter.iterErr`) -/
+  | readerReleased
+  /-- `session.close` has installed the empty stand-in version (`SizeOf`, `GetProperty`, `Stats` after `db.ok()`) -/
+  | closingVersion
+  /-- the released reader's preloaded index block is walked by an iterator created while `Close` ran (no block cache) -/
+  | indexBlockWalked
+deriving DecidableEq, Repr
+
+structure RaceCfg where
+  getStatsNilSafe : Bool
+  readerReleasedIsClosed : Bool
+  closingVersionIsClosed : Bool
+  releaseKeepsIndexBlock : Bool
+deriving DecidableEq, Repr
+
+/-- the source as it is now (regenerated facts) -/
+def codeRaceCfg : RaceCfg :=
+  ⟨Gen.lifeGetStatsNilSafe, Gen.lifeReaderReleasedIsClosed, Gen.lifeClosingVersionIsClosed,
+   Gen.lifeReleaseKeepsIndexBlock⟩
+
+/-- the source as found by wp40 (98bd5c2) -/
+def RaceCfg.asFound : RaceCfg := ⟨false, false, false, false⟩
+
+def raceOutcome (c : RaceCfg) : RaceWindow → RaceOutcome
+  | .cacheClosed => if c.getStatsNilSafe then .normal else .panic
+  | .readerReleased => if c.readerReleasedIsClosed then .closed else .internalError
+  | .closingVersion => if c.closingVersionIsClosed then .closed else .madeUpAnswer
+  | .indexBlockWalked =>
+    if c.releaseKeepsIndexBlock then (if c.readerReleasedIsClosed then .closed else .internalError) else .panic
+
+/-- **the tie of the repairs of D41, D44, D45, D46**: `Cache.GetStats` checks the loaded bucket-table pointer for nil;
+`tOps.find` / `findKey` / `offsetOf` and `dbIter.iterErr` map `table.ErrReaderReleased` to `ErrClosed`; `GetProperty`,
+`Stats` and `SizeOf` return `ErrClosed` on the stand-in version of a closed session before they read its levels;
+`table.Reader.Release` does not recycle the preloaded index block (regenerated facts `lifeGetStatsNilSafe`,
+`lifeReaderReleasedIsClosed`, `lifeClosingVersionIsClosed`, `lifeReleaseKeepsIndexBlock`: each turns false when its
+repair is reverted) — hence in each of the four windows the call completes normally or returns the closed error. -/
+theorem code_close_race_repairs :
+    codeRaceCfg = ⟨true, true, true, true⟩ ∧
+    ∀ w, raceOutcome codeRaceCfg w = .normal ∨ raceOutcome codeRaceCfg w = .closed := by
+  refine ⟨by decide, fun w => ?_⟩
+  cases w <;> decide
+
+/-- every one of the four facts is needed: without it some window yields a panic, an internal error or a made-up
+answer (the source as found: all four) -/
+theorem close_race_repairs_needed (c : RaceCfg) :
+    (∀ w, raceOutcome c w = .normal ∨ raceOutcome c w = .closed) ↔ c = ⟨true, true, true, true⟩ := by
+  obtain ⟨a, b, d, e⟩ := c
+  constructor
+  · intro h
+    have h1 := h .cacheClosed; have h2 := h .readerReleased; have h3 := h .closingVersion; have h4 := h .indexBlockWalked
+    cases a <;> cases b <;> cases d <;> cases e <;> simp_all [raceOutcome]
+  · intro h; cases h; intro w; cases w <;> decide
+
+example : raceOutcome RaceCfg.asFound .cacheClosed = .panic ∧ raceOutcome RaceCfg.asFound .readerReleased = .internalError ∧
+    raceOutcome RaceCfg.asFound .closingVersion = .madeUpAnswer ∧ raceOutcome RaceCfg.asFound .indexBlockWalked = .panic := by
+  decide
+
 end GoLevel.C18
 
 namespace GoLevel
@@ -493,5 +573,6 @@ def C18.theorems : List String :=
    "GoLevel.C18.setReadOnly_enters", "GoLevel.C18.setReadOnly_quiesces", "GoLevel.C18.code_setReadOnly_quiesces",
    "GoLevel.C18.drain_settles", "GoLevel.C18.setReadOnly_quiesces_partial", "GoLevel.C18.drain_completes",
    "GoLevel.C18.setReadOnly_quiesces_refuted_without_parking", "GoLevel.C18.table_sound",
-   "GoLevel.C18.code_methods_guarded"]
+   "GoLevel.C18.code_methods_guarded", "GoLevel.C18.code_close_race_repairs",
+   "GoLevel.C18.close_race_repairs_needed"]
 end GoLevel
